@@ -836,7 +836,12 @@ def write_evidence(pid, tier, seed, mod, results, confirmed, known_hit,
         'property_id': pid, 'tier': tier if tier in ('quick', 'thorough')
         else 'quick', 'seed': seed, 'level': 'model_checking',
         'coverage': cov,
-        'assumptions': meta.get('assumptions', []),
+        'assumptions': list(meta.get('assumptions', [])) + [
+            'paths are explored by re-executing the real code in one '
+            'process; before every path and every in-worker replay the '
+            'class- and module-level state of the minecraft package is '
+            'restored to its start-of-run state (symx/stateguard.py), and a '
+            'violation only counts after it replays in a fresh process'],
         'wall_s': round(wall, 3),
         'violations': len(confirmed),
     }
